@@ -471,6 +471,7 @@ def run(c):
             c.obligation("translator: %s regenerated" % name, True, "translator")
         except Exception as e:
             c.obligation("translator: %s regenerated" % name, False, "translator", repr(e))
+    lib.regen_refrewrite(c)
     c.build_props()
     evals = 0
     model_ok = lib.coq_make(["Model/Preagg.vo", "Gen/Derivable_gen.vo", "Gen/GranCompat_gen.vo"])[0]
